@@ -27,6 +27,8 @@ type call struct {
 	ctxKind  int           // 0 never ends (only if something closes), 1 cancel, 2 deadline
 	ctxEnd   time.Duration // absolute offset at which the context ends
 	addFirst []int         // channels added right before the call
+	viaMerge bool          // ... through a second set that is merged in
+	clear    bool          // the set is cleared first (before adding)
 }
 
 // Run executes one run of wsworld.
@@ -64,12 +66,19 @@ func Run(t *testing.T, prop, tier string, c *simcore.Choices, full bool) *simcor
 		cl := call{}
 		at += time.Duration(c.Choose(150))*unit + 500
 		cl.start = at
+		if k > 0 && c.Choose(8) == 0 {
+			cl.clear = true
+			for i := range inSet {
+				inSet[i] = false
+			}
+		}
 		for i := 0; i < n; i++ {
 			if !inSet[i] && c.Choose(2) == 0 {
 				cl.addFirst = append(cl.addFirst, i)
 				inSet[i] = true
 			}
 		}
+		cl.viaMerge = c.Choose(4) == 0
 		if c.Choose(3) != 0 {
 			cl.settle = time.Duration(1+c.Choose(100)) * unit
 		}
@@ -148,8 +157,24 @@ func Run(t *testing.T, prop, tier string, c *simcore.Choices, full bool) *simcor
 			if d := cl.start - now(); d > 0 {
 				time.Sleep(d)
 			}
+			if cl.clear {
+				ws.Clear()
+				members = map[int]bool{}
+				res.Probes["set-cleared"]++
+			}
+			if cl.viaMerge {
+				other := statedb.NewWatchSet()
+				for _, i := range cl.addFirst {
+					other.Add(ro[i])
+				}
+				ws.Merge(other)
+				res.Probes["members-merged-in"]++
+			} else {
+				for _, i := range cl.addFirst {
+					ws.Add(ro[i])
+				}
+			}
 			for _, i := range cl.addFirst {
-				ws.Add(ro[i])
 				members[i] = true
 			}
 			tCall := now()
